@@ -16,7 +16,11 @@ AlphaQuick == <<
   P("removeAkas", <<>>, <<>>, {"u1", "u9"}, <<>>),
   P("replace", <<K("c", 1)>>, <<K("r", 1)>>, {}, <<>>),
   P("jsonAdd", <<>>, <<>>, {"m1"}, <<>>),
-  P("jsonFail", <<>>, <<>>, {}, <<>>)
+  P("jsonFail", <<>>, <<>>, {}, <<>>),
+  \* an id / URI repeated WITHIN one add patch (validation rejects such a patch; the composer must still keep set semantics)
+  P("addKeys", <<K("d", 1), K("e", 1), K("d", 2)>>, <<>>, {}, <<>>),
+  P("addSvcs", <<K("w", 1), K("w", 2)>>, <<>>, {}, <<>>),
+  P("addAkas", <<>>, <<>>, {}, <<"u4", "u1", "u4">>)
 >>
 AlphaThorough == AlphaQuick \o <<
   P("addKeys", <<K("c", 2), K("b", 2)>>, <<>>, {}, <<>>),
